@@ -480,6 +480,12 @@ func runC13(c *Ctx) {
 		{"names-absent-65540-wraps-to-4-in-16-bits", func(t int) []any { return []any{gen.SpellIntAs(65540, t)} }, []*Node{refcbor.NInt(65540)}, map[int64]bool{4: true}, nil},
 		{"names-absent-2^32+4", func(t int) []any { return []any{gen.SpellIntAs(1<<32+4, t)} }, []*Node{refcbor.NInt(1<<32 + 4)}, map[int64]bool{4: true}, nil},
 		{"names-absent-minus-252", func(t int) []any { return []any{gen.SpellIntAs(-252, t)} }, []*Node{refcbor.NInt(-252)}, map[int64]bool{4: true}, nil},
+		{"names-absent-4294901759-wraps-to-minus-65537-in-32-bits", func(t int) []any { return []any{gen.SpellIntAs(4294901759, t)} }, []*Node{refcbor.NInt(4294901759)}, map[int64]bool{-65537: true}, nil},
+		{"names-absent-65529-wraps-to-minus-7-in-16-bits", func(t int) []any { return []any{gen.SpellIntAs(65529, t)} }, []*Node{refcbor.NInt(65529)}, map[int64]bool{-7: true}, nil},
+		{"names-absent-249-wraps-to-minus-7-in-8-bits", func(t int) []any { return []any{gen.SpellIntAs(249, t)} }, []*Node{refcbor.NInt(249)}, map[int64]bool{-7: true}, nil},
+		{"names-absent-minus-65537-while-4294901759-present", func(t int) []any { return []any{gen.SpellIntAs(-65537, t)} }, []*Node{refcbor.NInt(-65537)}, map[int64]bool{4294901759: true}, nil},
+		{"names-absent-minus-7-while-249-present", func(t int) []any { return []any{gen.SpellIntAs(-7, t)} }, []*Node{refcbor.NInt(-7)}, map[int64]bool{249: true}, nil},
+		{"names-absent-2^31-while-minus-2^31-present", func(t int) []any { return []any{gen.SpellIntAs(1<<31, t)} }, []*Node{refcbor.NInt(1 << 31)}, map[int64]bool{-(1 << 31): true}, nil},
 		{"names-absent-4-while-260-present", func(t int) []any { return []any{gen.SpellIntAs(4, t)} }, []*Node{refcbor.NInt(4)}, map[int64]bool{260: true}, nil},
 		{"names-unprotected-only", func(t int) []any { return []any{gen.SpellIntAs(4, t)} }, []*Node{refcbor.NInt(4)}, nil, map[int64]bool{4: true}},
 		{"names-two-present", func(t int) []any { return []any{gen.SpellIntAs(4, t), gen.SpellIntAs(33, (t+3)%10)} }, []*Node{refcbor.NInt(4), refcbor.NInt(33)}, map[int64]bool{4: true, 33: true}, nil},
@@ -556,6 +562,10 @@ func runC13(c *Ctx) {
 		"Tag-unknown":              cbor.Tag{Number: 999, Content: int64(1)},
 		"typed-slice-int64":        []int64{4},
 		"typed-slice-string":       []string{"a"},
+		"typed-slice-int64-empty":  []int64{},
+		"typed-slice-int-nil":      []int(nil),
+		"typed-slice-string-empty": []string{},
+		"typed-slice-any-nil":      []any(nil),
 		"typed-map":                map[string]any{"a": int64(1)},
 		"byte-array":               [3]byte{1, 2, 3},
 		"ByteString":               cbor.ByteString("ab"),
